@@ -16,6 +16,15 @@ CHECKS = {
          "Coq model for all shapes <= 6x6x3 (quick) / 8x8x4 + random up to 40x40x6 (thorough), plus an independent geometric oracle.",
     ref="6 C09", technique="Rocq proof (lia/nia, mixed-radix uniqueness) + exhaustive-small correspondence by vm_compute",
     note=TB % "c09" + "np.diag/csr semantics modelled by `sym`; closed-form pattern predicates instead of the slice assignments."),
+ "C16": dict(
+    cat="proof",
+    text="Theorems for every batch with nx,ny >= 2 (flat or pallet), both arrangements (props/C16.v, axiom-free): every vial's exposure "
+         "lies in 0..corner value (lower/upper neighbour-count bounds proved from the topology theorem), hence exactly one position class; "
+         "a group query contains a vial iff it names that class; 'all' is the union; statistics- and trajectory-table labels are that class; "
+         "'side' = 'edge' on flat/hexagonal. Tied to the code by exact comparison of getVialGroup masks (all groups + random combinations), "
+         "both tables' labels, Snowfall's isin filter and recording-by-group for all shapes in the box, plus a direct oracle.",
+    ref="6 C16", technique="Rocq proof (counting lemmas + finite case analysis) + exhaustive-small correspondence by vm_compute",
+    note=TB % "c16" + "pandas .loc/isin/melt semantics modelled by `relabel`/`filter_vials`; Snowfall run sequentially with Nrep=2."),
 }
 NOT_YET = "check not built yet in this round (planned, see DESIGN.md section 6)"
 ALL = ["C%02d" % i for i in range(1, 21)]
